@@ -25,7 +25,7 @@ func VHCommandPoll() {
 		return
 	}
 	vReach("has-channel")
-	completed := len(w.prior) > 0
+	completed := w.priorDone
 	K0 := vFlatten(dr)
 	before := w.store.GetValues()
 	visits := vCopyVisits(dr.visitedNodes)
@@ -52,13 +52,9 @@ func VHCommandPoll() {
 		}
 		// the handler's goroutine reports completion now
 		willFail = vBool("completes.with.error")
-		if willFail {
-			w.prior <- errWaitingForCommandCompletion("command failed")
-		} else {
-			w.prior <- nil
-		}
+		w.completePrior(willFail)
 	} else {
-		willFail = vChoose("cmdchan", 4) == 3
+		willFail = w.priorFailed
 	}
 	if willFail {
 		var el *DialogueElement
